@@ -2249,4 +2249,3 @@ func max3(a, b, c int) int {
 }
 
 var overMu sync.Mutex
-
